@@ -324,11 +324,35 @@ class CallMixin:
             if isinstance(recv, RealObj) and all(conc(a) for a in args[1:]) and \
                     all(conc(v) for v in kws.values()):
                 import re as _re
-                if isinstance(recv.obj, _re.Pattern):
+                if isinstance(recv.obj, (_re.Pattern, _re.Match)):
                     r = getattr(recv.obj, name[5:])(*args[1:], **kws)
+                    if isinstance(r, dict):
+                        dr = st.alloc("dict")
+                        st.obj(dr).d = dict(r)
+                        return [(st, dr)]
                     if isinstance(r, list):
                         return [(st, self.wrap_str_result(r, st))]
                     return [(st, self.wrap_real(r))]
+            if isinstance(recv, RealObj) and name in ("real.search", "real.match") and \
+                    len(args) == 2 and not kws:
+                import re as _re
+                from .strings import Text as _Text
+                from .values import IntStr as _IntStr
+                tx = _Text.of(args[1])
+                if isinstance(recv.obj, _re.Pattern) and tx is not None:
+                    from . import textlex
+                    for pc_ in tx.pieces:
+                        if isinstance(pc_, _IntStr) and self.decide(st, pc_.term >= 0) is not True:
+                            raise OutOfReach("regex on the spelling of a possibly negative integer")
+                    verdict, groups, obs = textlex.analyse(recv.obj, textlex.shape_of(tx))
+                    self.lex_log.append((recv.obj.pattern, repr(tx), verdict, obs))
+                    if verdict == "nomatch":
+                        return [(st, None)]
+                    if verdict == "match":
+                        return [(st, textlex.MatchModel(
+                            {k: (None if i is None else tx.pieces[i]) for k, i in groups.items()}))]
+                    raise OutOfReach("lexing lemma for %r on %r undecided: %s" % (
+                        recv.obj.pattern[:30], tx, [o for o in obs if o[1] is not True][:2]))
             raise OutOfReach("method %s of a real object on symbolic arguments" % name)
         if name.startswith("x."):
             r = self.extra_builtins[name[2:]](self, args, kws, st)
